@@ -78,6 +78,16 @@ def gen_cases(tier):
         cases.append({"layer": "D", "spec": specs[0], "more": specs[1:], "tags": {"documents": ndocs},
                       "fmts": FORMATS, "entries": ["string", "file"] + (["odml.save"] if ndocs == 1 else []),
                       "sub": ["on", "off", "custom"]})
+    # documents with equal content and different ids (a document and its copy; two empty documents), and entities of
+    # one export that name the same repository
+    twin = docs.doc_of([rt.S("s", "t", props=[rt.P("p", [1], "int")])], author="same")
+    cases.append({"layer": "D", "spec": twin, "more": [twin, docs.doc_of([]), docs.doc_of([])], "tags": {"documents": "content-equal"},
+                  "fmts": FORMATS, "entries": ["string", "file", "string-reader-used-twice"], "sub": ["on"]})
+    url = "https://example.org/terms.xml"
+    shared = [docs.doc_of([rt.S("s", "t", repository=url), rt.S("s2", "t", repository=url)], repository=url),
+              docs.doc_of([rt.S("s", "t", repository="https://example.org/other.xml")], repository=url)]
+    cases.append({"layer": "D", "spec": shared[0], "more": shared[1:], "tags": {"documents": "shared-repository"},
+                  "fmts": FORMATS, "entries": ["string", "file"], "sub": ["on", "off"]})
     return cases
 
 
@@ -150,7 +160,7 @@ def _run(case, scratch):
                         wr = writer(sub)
                         wr.get_rdf_str("xml")
                         text = wr.get_rdf_str(fmt)
-                    elif entry == "string":
+                    elif entry in ("string", "string-reader-used-twice"):
                         text = writer(sub).get_rdf_str(fmt)
                     elif entry == "file":
                         writer(sub).write_file(path, fmt)
@@ -176,7 +186,12 @@ def _run(case, scratch):
                     continue
                 # import
                 try:
-                    if entry.startswith("string"):
+                    if entry == "string-reader-used-twice":
+                        # one reader object asked twice: the second answer is judged
+                        rd = RDFReader()
+                        rd.from_string(text, fmt)
+                        back = rd.from_string(text, fmt)
+                    elif entry.startswith("string"):
                         back = RDFReader().from_string(text, fmt)
                     elif entry == "file":
                         back = RDFReader().from_file(path, fmt)
